@@ -9,6 +9,11 @@ def render(case, c):
     fnkw = "async fn" if is_async else "fn"
     aw = ".await" if is_async else ""
     workbody = "let v: Vec<u64> = Vec::with_capacity(x as usize + 1); (v.capacity() as u64) + x" if work else "x + 1"
+    RT = "u64"
+    if p.get("ret", "value") == "ref":
+        RT = "&'static str"
+        workbody = ('let v: Vec<u64> = Vec::with_capacity(x as usize + 1); if v.capacity() > x as usize { "w" } else { "z" }' if work
+                    else 'if x > 2 { "a" } else { "b" }')
     items = []
     direct = trait = ""
     if kind in ("fn", "mod"):
@@ -19,9 +24,9 @@ def render(case, c):
             else:
                 deps, body = f"deps: &(impl Sync{extra})", workbody
             if kind == "fn":
-                fns.append(f"#[::entrait::entrait(pub T{k})]\n{fnkw} f{k}({deps}, x: u64) -> u64 {{ {body} }}\n")
+                fns.append(f"#[::entrait::entrait(pub T{k})]\n{fnkw} f{k}({deps}, x: u64) -> {RT} {{ {body} }}\n")
             else:
-                fns.append(f"#[::entrait::entrait(pub T{k})]\npub mod m{k} {{\n    use super::*;\n    pub {fnkw} f{k}({deps}, x: u64) -> u64 {{ {body} }}\n"
+                fns.append(f"#[::entrait::entrait(pub T{k})]\npub mod m{k} {{\n    use super::*;\n    pub {fnkw} f{k}({deps}, x: u64) -> {RT} {{ {body} }}\n"
                            f"    pub {fnkw} other{k}(deps: &impl Sync) -> u64 {{ 0 }}\n}}\n")
         items = fns
         path = "m1::f1" if kind == "mod" else "f1"
@@ -30,12 +35,12 @@ def render(case, c):
     elif kind == "trait-self":
         # f1 -> .. -> f(depth-1) -> Leaf::m (hand-written provider on the application)
         at = ""
-        items.append(f"#[::entrait::entrait]\npub trait Leaf {{ {fnkw} m(&self, x: u64) -> u64; }}\n")
-        items.append(f"pub struct App;\nimpl Leaf for App {{ {fnkw} m(&self, x: u64) -> u64 {{ {workbody} }} }}\n")
+        items.append(f"#[::entrait::entrait]\npub trait Leaf {{ {fnkw} m(&self, x: u64) -> {RT}; }}\n")
+        items.append(f"pub struct App;\nimpl Leaf for App {{ {fnkw} m(&self, x: u64) -> {RT} {{ {workbody} }} }}\n")
         for k in range(1, depth):
             nxt = f"deps.f{k + 1}(x + 1){aw}" if k < depth - 1 else f"deps.m(x + 1){aw}"
             bound = f"T{k + 1}" if k < depth - 1 else "Leaf"
-            items.append(f"#[::entrait::entrait(pub T{k})]\n{fnkw} f{k}(deps: &(impl {bound}{extra}), x: u64) -> u64 {{ {nxt} }}\n")
+            items.append(f"#[::entrait::entrait(pub T{k})]\n{fnkw} f{k}(deps: &(impl {bound}{extra}), x: u64) -> {RT} {{ {nxt} }}\n")
         mk = "let app = ::entrait::Impl::new(App);"
         if depth == 1:
             direct, trait = "Leaf::m(&*app, 3)", "Leaf::m(&app, 3)"
@@ -45,9 +50,9 @@ def render(case, c):
         dyn = kind == "dyn-async-trait"
         at = "#[::async_trait::async_trait]\n" if dyn else ""
         attr = "TrImpl, delegate_by = ref" if dyn else "TrImpl, delegate_by = DelegateTr"
-        items.append(f"#[::entrait::entrait({attr})]\n{at}pub trait Tr {{ {fnkw} m(&self, x: u64) -> u64; }}\n")
+        items.append(f"#[::entrait::entrait({attr})]\n{at}pub trait Tr {{ {fnkw} m(&self, x: u64) -> {RT}; }}\n")
         ea = "#[::entrait::entrait(ref)]" if dyn else "#[::entrait::entrait]"
-        items.append(f"pub struct X;\n{ea}\n{at}impl TrImpl for X {{ pub {fnkw} m(deps: &(impl Sync{extra}), x: u64) -> u64 {{ {workbody} }} }}\n")
+        items.append(f"pub struct X;\n{ea}\n{at}impl TrImpl for X {{ pub {fnkw} m(deps: &(impl Sync{extra}), x: u64) -> {RT} {{ {workbody} }} }}\n")
         items.append("pub struct App;")
         if dyn:
             items.append("impl AsRef<dyn TrImpl<Self> + Sync> for App { fn as_ref(&self) -> &(dyn TrImpl<Self> + Sync + 'static) { &X } }\n")
@@ -56,7 +61,7 @@ def render(case, c):
         for k in range(1, depth):
             nxt = f"deps.f{k + 1}(x + 1){aw}" if k < depth - 1 else f"deps.m(x + 1){aw}"
             bound = f"T{k + 1}" if k < depth - 1 else "Tr"
-            items.append(f"#[::entrait::entrait(pub T{k})]\n{fnkw} f{k}(deps: &(impl {bound}{extra}), x: u64) -> u64 {{ {nxt} }}\n")
+            items.append(f"#[::entrait::entrait(pub T{k})]\n{fnkw} f{k}(deps: &(impl {bound}{extra}), x: u64) -> {RT} {{ {nxt} }}\n")
         mk = "let app = ::entrait::Impl::new(App);"
         if depth == 1:
             direct, trait = "X::m(&app, 3)", "Tr::m(&app, 3)"
